@@ -138,6 +138,7 @@ type Unit struct {
 	wantCallCovers bool
 	curCallArgs []ssa.Value
 	setofMemo map[string]string
+	elemAxiom bool
 	preOnly bool // executing a `go` statement: a callee under contract is only checked for its precondition
 	selfRef string // identity of the function value when a closure is verified standalone
 	modsDone bool
@@ -396,6 +397,16 @@ func (un *Unit) elemRef(arr, idx string) string {
 	un.u.declareFun("g_elem_idx", []string{"Int"}, "Int")
 	un.u.declareFun("g_kind", []string{"Int"}, "Int")
 	t := fmt.Sprintf("(g_elem %s %s)", arr, idx)
+	if strings.Contains(arr, "q_") || strings.Contains(idx, "q_") {
+		// the term mentions a bound variable (it is evaluated under a quantifier): the defining facts are stated once,
+		// universally, instead of for this term
+		if !un.elemAxiom {
+			un.elemAxiom = true
+			un.u.usesQuant = true
+			un.addFact("(forall ((ea!a Int) (ea!i Int)) (! (and (= (g_elem_arr (g_elem ea!a ea!i)) ea!a) (= (g_elem_idx (g_elem ea!a ea!i)) ea!i) (< (g_elem ea!a ea!i) 0) (= (g_kind (g_elem ea!a ea!i)) 2)) :pattern ((g_elem ea!a ea!i))))")
+		}
+		return t
+	}
 	un.addFact(and(eq("(g_elem_arr "+t+")", arr), eq("(g_elem_idx "+t+")", idx), "(< "+t+" 0)", eq("(g_kind "+t+")", "2")))
 	return t
 }
@@ -674,7 +685,7 @@ func (un *Unit) val(fr *Frame, v ssa.Value) Val {
 		return Val{t: un.fnConst(v), fn: v, typ: v.Type()}
 	case *ssa.Global:
 		// address of a package-level variable
-		n := "|g_glob_" + sanitize(v.Pkg.Pkg.Name()+"."+v.Name()) + "|"
+		n := "|g_glob_" + sanitize(pkgKey(v.Pkg.Pkg)+"."+v.Name()) + "|"
 		if !un.u.declared[n] {
 			un.u.declare(n, "Int")
 			un.addFact("(< " + n + " 0)")
